@@ -2089,6 +2089,10 @@ class C15(HistProp):
             if op.startswith("F,"):
                 for bad in ("!wrote", "BADLEN", "NOT-TERMINATED", "=RC", "RC", "ABI-VERSION", "nodesc", "emptydesc", "unterminated", "exceeds-capacity", "BADOP"):
                     if bad in o and not o.startswith("OK:"):
+                        if self.header_pointer_case(case, op_index=i):
+                            return "[header-pointer] a header setter rewrote bytes that a name of the packet is read through; afterwards: facade op %s: %s" % (op[:60], o[:120])
+                        if self.data_pointer_case(case, op_index=i):
+                            return "[data-pointer] an in-place TTL/address write changed bytes that a name of the packet is read through; afterwards: facade op %s: %s" % (op[:60], o[:120])
                         return "[buffer] facade op %s: %s" % (op[:60], o[:200])
                 if (op == "F,b" or op.startswith("F,b,")) and last_b is not None and last_b.startswith("b="):
                     cap = int(op[4:]) if op.startswith("F,b,") else 8192
